@@ -65,9 +65,13 @@ class Harness:
         return self.kind.split(":", 1)[1] if self.kind.startswith("finding:") else None
 
 
+REQUIRES = {}
+
+
 def parse_harness_file(path):
     """Returns (append_target, [Harness])"""
     target = None
+    REQUIRES[path] = []
     out = []
     cur = None
     with open(path) as f:
@@ -77,6 +81,10 @@ def parse_harness_file(path):
         m = re.match(r"//\s*@append\s+(\S+)", s)
         if m:
             target = m.group(1)
+            continue
+        m = re.match(r"//\s*@requires\s+(\S+)", s)
+        if m:
+            REQUIRES[path].append(os.path.join(HARNESS_DIR, m.group(1)))
             continue
         m = re.match(r"//\s*@h\s+(.*)", s)
         if m:
@@ -202,7 +210,7 @@ def run(cmd, cwd, log, timeout, mem_kb=None, env=None):
 # Kani output parsing
 # --------------------------------------------------------------------------------------
 CHECK_RE = re.compile(
-    r"^Check (\d+): (\S+)\n\t - Status: (\w+)\n\t - Description: \"(.*)\"\n\t - Location: (.*)$", re.M)
+    r"^Check (\d+): ([^\n]+)\n\t - Status: (\w+)\n\t - Description: \"(.*)\"\n\t - Location: (.*)$", re.M)
 
 
 def parse_kani_log(text):
@@ -418,6 +426,12 @@ def main(argv):
         if mine:
             files.append((path, target))
             sel += mine
+    # helper files (no harnesses of their own) required by the selected harness files
+    targets = {path: target for path, target, _ in reg}
+    for path, _ in list(files):
+        for req in REQUIRES.get(path, []):
+            if req not in [f for f, _ in files]:
+                files.append((req, targets[req]))
     if not [h for h in sel if h.kind != "gate"]:
         print("no harnesses registered for %s/%s" % (prop, tier))
         return 2
